@@ -7,7 +7,7 @@ from harness import core, py2lean, instantiate
 from harness.core import Outcome, f2b, b2f
 
 ID = "C05"
-LEAN_TARGETS = ["BeyondVerif.Props.C05", "BeyondVerif.Lemmas.TwoBody"]
+LEAN_TARGETS = ["BeyondVerif.Props.C05", "BeyondVerif.Lemmas.TwoBody", "BeyondVerif.Lemmas.NewtonKepler"]
 THEOREMS = [
     "BeyondVerif.C05.meanMotion_formula",
     "BeyondVerif.C05.kepler_elements_constant",
@@ -24,7 +24,12 @@ THEOREMS = [
     "BeyondVerif.C05.propagate_history_independent",
     "BeyondVerif.C05.propagate_overwrites_cache",
     "BeyondVerif.C05.kpM2eLoop_exit",
-    "BeyondVerif.C05.kepler_anomaly_residual_partial",
+    "BeyondVerif.C05.m2e_loop_residual_elliptic",
+    "BeyondVerif.C05.kpM2e_elliptic_spec",
+    "BeyondVerif.C05.kepler_anomaly_residual",
+    "BeyondVerif.C05.loop_returns",
+    "BeyondVerif.C05.kpM2eLoop_neg",
+    "BeyondVerif.C05.kepler_m2e_terminates_partial",
     "BeyondVerif.C05.kepler_cart_compose",
     "BeyondVerif.C05.kepler_cart_inverse",
     "BeyondVerif.C05.kepler_cart_periodic",
@@ -46,7 +51,7 @@ LEVEL_TEXT = ("Lean theorems over R about the element update translated from kep
               "node rate = Earth's mean motion for the inclination returned by leo.sso), composes modulo 2 pi. Cartesian-level composition / inverse / "
               "periodicity are proved from the form round trip as explicit hypotheses (C01). The propagator object re-reads the orbit on every call (history independence); "
               "the Newton loop of Form.M2E (translated start values / update / tolerance, loop shape checked) is left on convergence only, so a returned anomaly solves Kepler's equation "
-              "for the advanced mean anomaly within 2e-8 (1+e) (partial correctness; termination fails: open finding). Differential correspondence of the whole chain (update, M2E, "
+              "for the advanced mean anomaly within 2e-8 (1+e); for the anomaly reduced to [-pi, pi) (as the code does since b41fd8b) with |M'| <= pi - e the loop provably exits (monotone Newton descent). Differential correspondence of the whole chain (update, M2E, "
               "eccentric -> true -> cartesian, all in Lean) against Orbit.propagate from every form, on single calls and on call histories with in-place modifications.")
 LEVEL_NOTE = ("R -> double gap covered only by tolerance-bounded correspondence; form conversions (C01) enter as hypotheses; that advancing M at rate n solves the "
               "two-body ODE is proved for bound orbits in the orbital plane only (hyperbolic case: oracle, independent universal-variable propagator); Lean kernel + propext/Classical.choice/Quot.sound; "
@@ -67,10 +72,10 @@ NOT_COVERED = ["two-body solution: proved for bound orbits in the orbital plane 
                "the hyperbolic counterpart, the constant rotation of the orbital plane into the frame, and that the library's mean -> cartesian conversion computes these coordinates (C01) are not formalised; "
                "agreement with the independent universal-variable solution (elliptic and hyperbolic, both time directions) is oracle only",
                "J2 on hyperbolic orbits: the code returns NaN silently (sqrt(1 - e^2)); secular J2 theory is defined for bound orbits only, the model reproduces the NaN, the theorems assume e < 1 where sqrt matters"]
-OPEN = ["termination of Form.M2E is FALSE of the current code for bound orbits several revolutions away (known finding C05-m2e-no-return-ell, proposed_fixes/C05-m2e-no-return-ell.diff): "
-        "kepler_anomaly_residual_partial carries the hypothesis 'the loop exited'; no kernel witness (the cycle is a property of the double-precision iteration; Float is opaque to the kernel) - "
-        "the compiled model runs out of fuel on exactly the inputs on which the code does not return (correspondence result=no-return)",
-        "hyperbolic M2E overflow (lead 18): fixed in /repo by 31f549a; the oracle family hyperbolic-M2E-overflow stays alive (reverting the fix gives a VIOLATION)"]
+OPEN = ["termination of Form.M2E (elliptic branch, code after fix b41fd8b) is proved over R for reduced mean anomalies |M'| <= pi - e (kepler_m2e_terminates_partial: monotone Newton descent, at most e/tol + 2 passes); "
+        "remaining gap: pi - e < |M'| <= pi (within e of apogee the start value M' +- e overshoots +-pi into the region of the other curvature; <= 11 passes on 1e6 sampled inputs, oracle m2e_case) "
+        "and the double-precision iteration itself (R -> double; covered by the 1 s watchdog families m2e-no-return-*, the pinned regression inputs and the fuel-bounded compiled model); hyperbolic branch: no termination theorem",
+        "known findings C05-hyperbolic-M2E-overflow (31f549a) and C05-m2e-no-return-ell (b41fd8b) are fixed in /repo; their oracle families stay alive (reversing either fix gives a VIOLATION with a replay)"]
 RULE = ("correspondence: random orbits (e log/uniform in [1e-4,0.95] and [1.01,10], perigee radius 6.6e6..5e7 m, every form the conic admits, dt in +-30 d quantised to ms) through "
         "Orbit.propagate (Kepler, J2) vs real mean->cartesian applied to the Lean model's elements on the real cartesian->mean elements; non-trivial = dt != 0; distinct = distinct request line. "
         "plus the Kepler inputs with the most Newton passes among 2e4 (2e5) domain candidates, plus call histories (propagate / modify in place: element, velocity scaling, form, date / propagate again, "
@@ -136,29 +141,56 @@ def to_cart_chain(tree):
     top = body[1]
     test = py2lean.translate_expr(top.test)
     out = {}
-    expected = ast.dump(ast.parse("X1 = next_X(X, e, M)\nwhile abs(X1 - X) >= tol:\n    X = X1\n    X1 = next_X(X, e, M)\nreturn X1\n"))
+    expected = ast.dump(ast.Module(body=ast.parse("X1 = next_X(X, e, M)\nwhile abs(X1 - X) >= tol:\n    X = X1\n    X1 = next_X(X, e, M)\n").body, type_ignores=[]))
     for tag, blk, var, nxt in (("E", top.body, "E", "next_E"), ("H", top.orelse, "H", "next_H")):
-        k = 0
+        # shape: [prelude assignments of M / one auxiliary]* [start-value ifs]+ def next; X1 = next(X); while …; return f(X1, aux)
+        j = 0
+        while j < len(blk) and isinstance(blk[j], ast.Assign) and len(blk[j].targets) == 1 and isinstance(blk[j].targets[0], ast.Name):
+            j += 1
+        k = j
         while k < len(blk) and isinstance(blk[k], ast.If):
             k += 1
-        if not (k >= 1 and len(blk) == k + 4 and isinstance(blk[k], ast.FunctionDef) and blk[k].name == nxt):
+        if not (k >= j + 1 and len(blk) == k + 4 and isinstance(blk[k], ast.FunctionDef) and blk[k].name == nxt and isinstance(blk[k + 3], ast.Return)):
             raise py2lean.Untranslatable(f"M2E: unexpected shape of the {tag} branch")
+        prelude = list(blk[:j])
+        aux = sorted({st.targets[0].id for st in prelude} - {"M"})
+        if len(aux) > 1 or any(st.targets[0].id in (var, var + "1", "e", "tol") for st in prelude):
+            raise py2lean.Untranslatable(f"M2E: unexpected prelude of the {tag} branch")
+
+        def pre(name, default):
+            if not any(st.targets[0].id == name for st in prelude):
+                return default
+            t = py2lean.TrFn()
+            t.defined |= {"e", "M"}
+            return t.stmts(prelude + [ast.Return(value=ast.Name(id=name, ctx=ast.Load()))])
+        out["arg" + tag] = pre("M", "M")
+        out["off" + tag] = pre(aux[0], "(0 : R)") if aux else "(0 : R)"
         tr = py2lean.TrFn()
         tr.defined |= {"e", "M"}
-        out["start" + tag] = tr.stmts(list(blk[:k]) + [ast.Return(value=ast.Name(id=var, ctx=ast.Load()))])
+        out["start" + tag] = tr.stmts(list(blk[j:k]) + [ast.Return(value=ast.Name(id=var, ctx=ast.Load()))])
         nf = blk[k]
         if [a.arg for a in nf.args.args] != [var, "e", "M"] or len(nf.body) != 1 or not isinstance(nf.body[0], ast.Return):
             raise py2lean.Untranslatable("M2E: unexpected Newton update function")
         out["next" + tag] = py2lean.translate_expr(_rename([nf.body[0].value], {var: "X"})[0])
-        shape = ast.dump(ast.Module(body=_rename(blk[k + 1:], {var: "X", var + "1": "X1", nxt: "next_X"}), type_ignores=[]))
+        shape = ast.dump(ast.Module(body=_rename(blk[k + 1:k + 3], {var: "X", var + "1": "X1", nxt: "next_X"}), type_ignores=[]))
         if shape != expected:
             raise py2lean.Untranslatable("M2E: the iteration loop no longer has the modelled shape (exit only when |X1 - X| < tol)")
+        ret = _rename([blk[k + 3].value], dict({var + "1": "X1"}, **({aux[0]: "off"} if aux else {})))[0]
+        used = {n.id for n in ast.walk(ret) if isinstance(n, ast.Name)}
+        if not ("X1" in used and used <= {"X1", "off", "np"}):
+            raise py2lean.Untranslatable(f"M2E: the {tag} branch returns something else than a function of the last iterate and the prelude's offset")
+        out["res" + tag] = py2lean.translate_expr(ret)
     cls = py2lean.find_function(tree, "Form")
     edge = next(f for f in cls.body if isinstance(f, ast.FunctionDef) and f.name == "_keplerian_mean_to_keplerian_eccentric")
     stm = [st for st in edge.body if not (isinstance(st, ast.Expr) and isinstance(st.value, ast.Constant))]
     if [ast.dump(x) for x in stm] != [ast.dump(x) for x in ast.parse(M2E_EDGE_SRC).body]:
         raise py2lean.Untranslatable("_keplerian_mean_to_keplerian_eccentric no longer has the modelled shape (a,e,i,Ω,ω,M2E(e,M))")
     parts = [f"/-- `tol` of `Form.M2E` -/\ndef kpM2eTol : R := {tol}\n",
+             "/-- the mean anomaly the iteration of `Form.M2E` works on (prelude of the branch: reduction to [-π, π) for ellipses) -/\ndef kpM2eArg (e M : R) : R :=\n  if " + test + " then\n" +
+             py2lean.indent(out["argE"], 4) + "\n  else\n" + py2lean.indent(out["argH"], 4) + "\n",
+             "/-- the offset set aside by the prelude (whole revolutions for ellipses; none for hyperbolas) -/\ndef kpM2eOffset (e M : R) : R :=\n  if " + test + " then\n" +
+             py2lean.indent(out["offE"], 4) + "\n  else\n" + py2lean.indent(out["offH"], 4) + "\n",
+             "/-- the value returned by `Form.M2E` from the last iterate and the offset -/\ndef kpM2eResult (e X1 off : R) : R :=\n  if " + test + " then " + out["resE"] + "\n  else " + out["resH"] + "\n",
              "/-- start value of the Newton iteration in `Form.M2E` (every branch) -/\ndef kpM2eStart (e M : R) : R :=\n  if " + test + " then\n" +
              py2lean.indent(out["startE"], 4) + "\n  else\n" + py2lean.indent(out["startH"], 4) + "\n",
              "/-- `next_E` / `next_H` of `Form.M2E` -/\ndef kpM2eNext (X e M : R) : R :=\n  if " + test + " then " + out["nextE"] + "\n  else " + out["nextH"] + "\n",
@@ -275,10 +307,12 @@ def mean_motion(mu, a):
 
 
 
-def m2e_iters(e, M, cap=100000):
+def m2e_iters(e, M, cap=100000, reduce=True):
     """number of passes of the Newton loop of Form.M2E (harness-side mirror, used ONLY to select inputs on which the
     loop runs long — never as an expected value)"""
     if e < 1:
+        if reduce:
+            M = M - TWO_PI * math.floor((M + math.pi) / TWO_PI)
         X = M - e if (-math.pi < M < 0 or M > math.pi) else M + e
         nx = lambda E: E + (M - E + e * math.sin(E)) / (1 - e * math.cos(E))
     else:
@@ -310,7 +344,8 @@ def slow_m2e_inputs(rng, ncand, ntop):
             elts[0] = rng.uniform(6.6e6, 9e6) / (1 - elts[1])
         dt = q(rng.uniform(-30, 30) * DAY)
         Mn = elts[5] + mean_motion(3.986009368e14, elts[0]) * dt
-        cands.append((m2e_iters(elts[1], Mn), elts, dt))
+        # ranked by the slower of: the loop as the code runs it now (anomaly reduced), and the loop on the unreduced anomaly
+        cands.append((max(m2e_iters(elts[1], Mn, cap=2000), m2e_iters(elts[1], Mn, cap=2000, reduce=False)), elts, dt))
     cands.sort(key=lambda c: -c[0])
     pick = cands[:ntop] + rng.sample(cands[ntop:ntop * 20], min(ntop // 2, len(cands[ntop:ntop * 20])))
     out = []
